@@ -45,6 +45,7 @@ var Prop = &engine.Prop{
 		{Name: "oneshot", Quick: 600, Thorough: 24000, Repeat: 20, Fn: oneshotCase},
 		{Name: "linz", Quick: 1600, Thorough: 64000, Repeat: 20, Fn: linzCase},
 		{Name: "evict-race", Quick: 40, Thorough: 1600, Fn: evictRaceCase},
+		{Name: "big-size", Quick: 16, Thorough: 320, Fn: bigSizeCase},
 	},
 	Floors: map[string]int64{
 		"hit":                       5000,
@@ -77,6 +78,7 @@ var Prop = &engine.Prop{
 		"oneshot_rounds_dead_setnx": 50,
 		"oneshot_rounds_live_setnx": 20,
 		"linz_histories_checked":    200,
+		"big_size_cases":            8,
 	},
 }
 
